@@ -304,6 +304,11 @@ def run(ctx):
                     ctx.violation("import-delete-race", p + " [two-worker pass: " + last2w[:200] + "]",
                                   {"kind": "dhistory", "hseed": hseed, "last_steps": ctxlog, "history": log})
                     continue
+                if m_ and "recorded healthy and wanted" in p and "Delete copies" in last2w and \
+                        re.search(r"AFCR#\d+: \S+ -> " + re.escape(m_.group(2)) + r"\b", last2w):
+                    ctx.violation("pull-delete-race", p + " [two-worker pass: " + last2w[:200] + "]",
+                                  {"kind": "dhistory", "hseed": hseed, "last_steps": ctxlog, "history": log})
+                    continue
                 m2_ = re.search(r"copy \d+ of (\S+) on (\S+) was recorded removed .* by \('tasks-2-workers'", p)
                 if m2_ and re.search(r"Delete copies \[[^\]]*\] from " + re.escape(m2_.group(2)) + r"'", p) and \
                         re.search(r"AFCR#\d+: \S+ -> " + re.escape(m2_.group(2)) + r"'", p):
